@@ -20,7 +20,8 @@ CONSTANTS MaxR,          \* largest rank (number of columns)
           FullPermR,     \* all R! column permutations are enumerated for R <= FullPermR, the 2R dihedral ones above
           GenDraws,      \* random draws per generic configuration
           MetricDraws,   \* random integer data draws per error-metric configuration
-          LevDraws       \* random draws per leverage-score configuration
+          LevDraws,      \* random draws per leverage-score configuration
+          LevMaxCols     \* columns of the exact leverage-score matrices: all index sequences up to this length (<= 4)
 
 AbsI(x) == IF x < 0 THEN -x ELSE x
 SgnI(x) == IF x < 0 THEN -1 ELSE IF x > 0 THEN 1 ELSE 0
@@ -265,7 +266,7 @@ CfgsOf(sd) ==
                 r \in {2, 3, 5, 9}, cl \in 1..4, fl \in LevFlavours, k \in 1..LevDraws}
       [] sd.fam = "levexact" ->
             {[kind |-> "levexact", f |-> sd.f, idxs |-> ix, pad |-> sd.pad, A |-> LevMatrix(sd.f, ix, sd.pad)] :
-                ix \in UNION {SeqsOver(1..3, n) : n \in 1..4}}
+                ix \in UNION {SeqsOver(1..3, n) : n \in 1..LevMaxCols}}
       [] sd.fam = "metricdata" ->      \* exhaustive small data for the theorems about the metric formulas
             {[kind |-> "metricdata", x |-> sd.x, y |-> y] : y \in SeqsOver({-2, 0, 1}, 3)}
 
